@@ -191,6 +191,7 @@ def run(rep: Report) -> None:
     rep.rule("R08.3", "per-query state: no mutable default arguments and no module-level scratch containers in conversions", floor=2)
     rep.rule("R08.4", "determinism: no iteration over sets of identity-hashed objects and no id()-dependent ordering on the "
              "conversion path (id-sorted intern keys excepted)", floor=1)
+    rep.rule("R08.8", "no function inside a memoised computation turns an environment-dependent exception (RecursionError, MemoryError, a catch-all) into a return value", floor=1)
     rep.rule("R08.7", "no function changes interpreter-global numeric state (decimal context)", floor=1)
     rep.rule("R05.7", "Quantity.in_unit is conversions.convert(self, unit), unchanged, on every path (shared with C05): nothing is set up or torn down around a query", floor=1)
     rep.rule("R08.6", "no memoised function is keyed by numbers of several types (the result of a query must not depend on the type "
@@ -272,16 +273,57 @@ def run(rep: Report) -> None:
                   f"{m} is memoised over {sorted(read_locs)} but {bad} write(s) them without clearing its cache afterwards: a "
                   "conversion that failed (or succeeded) before a declaration keeps its cached outcome", fi.where(),
                   note={"reads_tracked": sorted(read_locs)})
+    # R08.8: what a memo stores must be a function of its arguments and the tables.  An exception leaves nothing in the
+    # cache; a value returned from a handler is stored.  A handler for an exception that depends on the caller's
+    # environment (stack depth, memory, signals) - or a catch-all - therefore freezes one caller's bad luck for everyone
+    ENV_EXC = {"RecursionError", "RuntimeError", "MemoryError", "KeyboardInterrupt", "SystemExit", "OSError", "TimeoutError",
+               "Exception", "BaseException"}
+    n8 = 0
+    for m in memos:
+        rch = transitive(prog, resolver, m)
+        for f in sorted(rch.reached):
+            ffi = prog.functions[f]
+            if ffi.module in SKIP:
+                continue
+            for t in Resolver._own_nodes(ffi.node):
+                if not isinstance(t, ast.Try) or not rch.feasible_node(f, t):
+                    continue
+                for h in t.handlers:
+                    names = ["<bare>"] if h.type is None else [ast.unparse(x).split(".")[-1] for x in (h.type.elts if isinstance(h.type, ast.Tuple) else [h.type])]
+                    hit = [x for x in names if x in ENV_EXC or x == "<bare>"]
+                    reraises = any(isinstance(x, ast.Raise) for st in h.body for x in ast.walk(st))
+                    if hit and not reraises:
+                        n8 += 1
+                        rep.fail("R08.8", f"{m}<-{f}:except {hit[0]}", f"{f} (inside the memoised {m}) turns {hit[0]} into an ordinary result: lru_cache stores it, "
+                                 "so one query that ran out of stack (or memory, or was interrupted) decides the outcome of every later identical "
+                                 "query until the next declaration", ffi.where(h))
+    if n8 == 0:
+        rep.ok("R08.8", "memoised functions", note=f"{len(memos)} memos, no environment-dependent exception is turned into a value")
     # R08.3
     conv = prog.module("conversions")
     for q, fi in prog.functions.items():
-        if fi.module != "conversions":
+        if fi.module in SKIP:
             continue
         a = fi.node.args  # type: ignore[attr-defined]
-        for d in list(a.defaults) + [k for k in a.kw_defaults if k is not None]:
+        pos = a.posonlyargs + a.args
+        pairs = list(zip(pos[len(pos) - len(a.defaults):], a.defaults)) + [(x, d) for x, d in zip(a.kwonlyargs, a.kw_defaults) if d is not None]
+        for x, d in pairs:
             mutable = isinstance(d, (ast.List, ast.Dict, ast.Set)) or (isinstance(d, ast.Call) and ast.unparse(d.func) in ("set", "list", "dict", "defaultdict"))
-            rep.check("R08.3", f"{q}:default {ast.unparse(d)[:30]}", not mutable,
-                      f"{q} has a mutable default argument `{ast.unparse(d)}`: state shared across queries", fi.where(d))
+            if fi.module != "conversions":
+                # elsewhere in the package (the CLI's table walk, ...) a mutable default is shared state only if the body writes it
+                if not mutable:
+                    continue
+                written = any((isinstance(n, ast.Call) and isinstance(n.func, ast.Attribute) and isinstance(n.func.value, ast.Name) and n.func.value.id == x.arg
+                               and n.func.attr in ("add", "append", "extend", "update", "setdefault", "insert", "pop", "remove", "discard", "clear"))
+                              or (isinstance(n, ast.Subscript) and isinstance(n.ctx, (ast.Store, ast.Del)) and isinstance(n.value, ast.Name) and n.value.id == x.arg)
+                              or (isinstance(n, ast.AugAssign) and isinstance(n.target, ast.Name) and n.target.id == x.arg)
+                              for n in ast.walk(fi.node))
+                if not written:
+                    continue
+            rep.check("R08.3", f"{q}:default {x.arg}={ast.unparse(d)[:30]}", not mutable,
+                      f"{q} has the mutable default argument `{x.arg}={ast.unparse(d)}`" + (" and writes it" if fi.module != "conversions" else "") +
+                      ": one object shared by every call, so what a query (a listing of equivalents) returns depends on the queries made before it",
+                      fi.where(d))
     scratch = sorted(tracked - {"conversions._ratios", "conversions._offsets"})
     rep.check("R08.3", "conversions:module-containers", not scratch,
               f"module-level mutable containers besides the two tables: {scratch} - results may depend on earlier queries",
